@@ -106,19 +106,19 @@ trk("C04", "c04.", {"K": 3, "S": 2, "L": 1, "WILD": 1}, {"K": 4, "S": 2, "L": 1,
 kw = ["Accepted publickey", "Accepted password", "Certificate invalid", "Invalid user", "User ", "ROOT LOGIN REFUSED FROM",
       "Authentication refused for", "Nasty PTR record", "reverse mapping checking getaddrinfo for", "Address ",
       "maximum authentication attempts exceeded for", "Authentication key ", "Error checking authentication key", "Failed password for"]
-def c11runs(NQ, NT, TQ, TT):
-    runs = [run("arbitrary", SSHD, "VerifC11Arbitrary", q({"N": NQ}, ascii7=False), t({"N": NT}), reach=["c11.nothing"],
+def c11runs(NQ, NT, TQ, TT, cross=True):
+    runs = [run("arbitrary", SSHD, "VerifC11Arbitrary", q({"N": NQ}, ascii7=False), t({"N": NT}, cross_check=cross), reach=["c11.nothing"],
                 bounds="line: any bytes, 0..N; pid token: any bytes, 0..3")]
     need = {0: 56, 4: 48, 7: 34, 9: 60, 13: 40}  # tails long enough for a recognised message (for kw00: a second, complete message after the keyword)
     for i, k in enumerate(kw):
-        runs.append(run("kw%02d" % i, SSHD, "VerifC11Keyword", q({"K": i, "T": max(TQ, need.get(i, 0))}, ascii7=False), t({"K": i, "T": max(TT, need.get(i, 0))}), reach=(["c11.event"] if i == 2 else ["c11.event", "c11.nothing"]),
+        runs.append(run("kw%02d" % i, SSHD, "VerifC11Keyword", q({"K": i, "T": max(TQ, need.get(i, 0))}, ascii7=False), t({"K": i, "T": max(TT, need.get(i, 0))}, cross_check=cross), reach=(["c11.event"] if i == 2 else ["c11.event", "c11.nothing"]),
                         bounds="keyword %r + any bytes 0..T; pid token any bytes 0..3" % k))
     return runs
 c11_assume = ["no write fault is injected here (C05 covers it)", "stubs: zap, prometheus, json.Marshal, uuid, time.Now",
               "regex classes are checked per instruction to be uniform over non-ASCII runes, which makes the byte-level encoding exact for invalid UTF-8 as well"]
 c11ing = [run("ingester-line", M + "/ingesters/syslog", "VerifC11IngesterLine", q({"N": 8}), t({"N": 12}), reach=["c11.ingester.processed"],
               bounds="syslog ingester Process/ParseSyslogMessage on a line of 0..N bytes but newline (quick: 7-bit bytes, thorough: any bytes): the PID token and message handed to the processor are verbatim substrings of the line (composes with the processor-level runs: substring-of is transitive)")]
-write("C11", c11runs(24, 32, 28, 40) + c11ing, c11_assume, ["lines longer than the bounds ('very long lines')"], site_prefix="c11.")
+write("C11", c11runs(24, 32, 28, 40, cross=False) + c11ing, c11_assume, ["lines longer than the bounds ('very long lines')"], site_prefix="c11.")
 
 # ---- C05
 c05 = []
@@ -127,7 +127,7 @@ for form, fname in ((0, "key"), (1, "cert"), (2, "password"), (3, "key-trailing-
         qp = {"FORM": form, "MODE": mode, "U": 4, "A": 4, "K": 4, "I": 8, "PIDLEN": 3, "FIXLEN": 1}
         tp = {"FORM": form, "MODE": mode, "U": 6, "A": 6, "K": 6, "I": 12, "PIDLEN": 6, "FIXLEN": 1}
         reach = ["c05.returned", "c05.fault"] + (["c05.login"] if mode < 2 else ["c05.cancelled-returned"])
-        c05.append(run("%s-%s" % (fname, mname), SSHD, "VerifC05Accepted", q(qp), t(tp), reach=reach,
+        c05.append(run("%s-%s" % (fname, mname), SSHD, "VerifC05Accepted", q(qp), t(tp, cross_check=False), reach=reach,
                        bounds="accepted %s line, correlator %s; field lengths fixed at their maxima with symbolic contents (key id length symbolic); PID token 1..PIDLEN digits (not all zero); write fault symbolic" % (fname, mname)))
 write("C05", c05, ["failure / unrecognised lines never forward a login: asserted on every path of the C06, C11 and C17 harnesses (sites *.nologin, c11.no-login-without-event, c11.login-needs-success)",
                    "schedules: every interleaving of the processor with the receiver / canceller goroutine at channel and mutex operations",
